@@ -60,6 +60,7 @@ type Let struct {
 	Names []string
 	E     *Expr
 	Text  string
+	Post  bool // evaluated in the post-state
 }
 
 type FuncContract struct {
@@ -108,7 +109,7 @@ type ContractFile struct {
 }
 
 var clauseKeywords = map[string]bool{"func": true, "spec": true, "lemma": true, "global": true, "import": true,
-	"pure": true, "requires": true, "ensures": true, "modifies": true, "let": true, "loop": true, "trusted": true,
+	"pure": true, "requires": true, "ensures": true, "modifies": true, "let": true, "letpost": true, "loop": true, "trusted": true,
 	"use": true, "panics": true}
 
 // parseContractFile reads a contract file and returns its blocks.
@@ -246,7 +247,7 @@ func parseContractText(path, pkgPath, text string) (*ContractFile, error) {
 					}
 					cur.Modifies = append(cur.Modifies, e)
 				}
-			case "let":
+			case "let", "letpost":
 				i := strings.Index(rest, ":=")
 				if i < 0 {
 					return nil, fail(fmt.Errorf("let needs :="))
@@ -259,7 +260,7 @@ func parseContractText(path, pkgPath, text string) (*ContractFile, error) {
 				if err != nil {
 					return nil, fail(err)
 				}
-				cur.Lets = append(cur.Lets, &Let{Names: names, E: e, Text: strings.TrimSpace(rest)})
+				cur.Lets = append(cur.Lets, &Let{Names: names, E: e, Text: strings.TrimSpace(rest), Post: kw == "letpost"})
 			case "loop":
 				f := strings.Fields(rest)
 				if len(f) < 3 {
@@ -763,7 +764,7 @@ func (p *exprParser) parsePostfix() (*Expr, error) {
 			var args []*Expr
 			for !p.isOp(")") {
 				// typeis(v, T): second argument is a type
-				if e.Op == "id" && (e.Name == "typeis" || e.Name == "zeroOf") && len(args) == 1 {
+				if e.Op == "id" && (e.Name == "typeis" || e.Name == "zeroOf" || e.Name == "jsonDecode" || e.Name == "jsonDecodeErr") && len(args) == 1 {
 					ts := p.typeSrcUntil(")")
 					args = append(args, &Expr{Op: "type", TypeSrc: ts})
 					break
